@@ -444,7 +444,14 @@ impl<W: Write + io::Seek> ZipWriter<W> {
             file.uncompressed_size = self.stats.bytes_written;
 
             let file_end = writer.stream_position()?;
-            file.compressed_size = file_end - self.stats.start;
+            // After a failed seek or write while closing this entry earlier, the sink can be
+            // positioned in front of the entry's data; report that instead of underflowing.
+            file.compressed_size = file_end.checked_sub(self.stats.start).ok_or_else(|| {
+                io::Error::new(
+                    io::ErrorKind::Other,
+                    "sink is positioned before the start of the file data",
+                )
+            })?;
 
             update_local_file_header(writer, file)?;
             writer.seek(io::SeekFrom::Start(file_end))?;
